@@ -261,6 +261,14 @@ func (e *seEval) val(fr *seFrame, v ssa.Value) seVal {
 					e.globals[x] = o
 					return seVal{k: sePtr, obj: o, idx: -1}
 				}
+				if at, isArr := et.Underlying().(*types.Array); isArr && at.Len() <= 4096 {
+					o = e.newObj("array", int(at.Len()), et)
+					for i := range o.vals {
+						o.vals[i] = e.zero(at.Elem())
+					}
+					e.globals[x] = o
+					return seVal{k: sePtr, obj: o, idx: -1}
+				}
 			}
 			o = e.newObj("cell", 1, x.Type())
 			o.vals[0] = seUnk
@@ -269,7 +277,7 @@ func (e *seEval) val(fr *seFrame, v ssa.Value) seVal {
 			}
 			e.globals[x] = o
 		}
-		if o.kind == "struct" {
+		if o.kind == "struct" || o.kind == "array" {
 			return seVal{k: sePtr, obj: o, idx: -1}
 		}
 		return seVal{k: sePtr, obj: o, idx: 0}
@@ -1047,6 +1055,23 @@ func seTables(c *Ctx) map[types.Object]interface{} {
 			if g.Pkg == nil || !inModPkg(g.Pkg) || g.Object() == nil {
 				continue
 			}
+			if o.kind == "array" {
+				// an array of integers: kept by variable for the rules that fold expressions over it
+				if !o.unknown {
+					var xs []int64
+					ok := true
+					for _, v := range o.vals {
+						if v.k != seInt {
+							ok = false
+						}
+						xs = append(xs, v.i)
+					}
+					if ok {
+						seIntArrays(c)[g.String()] = xs
+					}
+				}
+				continue
+			}
 			if o.kind == "struct" {
 				// not a table itself; the tables its fields hold are kept by (variable, field)
 				if st, ok := g.Type().Underlying().(*types.Pointer).Elem().Underlying().(*types.Struct); ok && !o.unknown {
@@ -1507,4 +1532,10 @@ func digitTableByContent(v ssa.Value) (string, bool) {
 		return "ASCIIHexDigit", true
 	}
 	return "", false
+}
+
+// seIntArrays: package-level arrays of integers as the SSA fold of the initialisers left them, keyed by the global's
+// name (filled by seTables).
+func seIntArrays(c *Ctx) map[string][]int64 {
+	return c.Memo("seIntArrays", func() interface{} { return map[string][]int64{} }).(map[string][]int64)
 }
